@@ -508,7 +508,7 @@ def run_c19(ck, ctx):
     n = 6 if tier == 'quick' else 60
     jobs = []
     for si in range(n):
-        if si % 3 == 2: pk, meta = erroneous_stream(R, nlinks=R.randint(1, 3), nfaults=4, exclude=('padding_over_15', 'rdh_fee_reserved', 'rdh_fee_stave48'))
+        if si % 3 == 2: pk, meta = erroneous_stream(R, nlinks=R.randint(1, 3), nfaults=4, exclude=('padding_over_15', 'rdh_fee_reserved', 'rdh_fee_stave48', 'rdh_df3'))
         else: pk, meta = G.conforming_stream(R, nlinks=R.randint(1, 4))
         # flag combinations of TDT / DDW0 lane status and detector-field status bits
         for p in pk:
